@@ -3,7 +3,7 @@
 From PS Require Import Lib.Base Generated.Consts Model.SdTypes Model.Config.
 From PS Require Import Lib.Struct Model.Someip Model.SdCodec Model.Session Model.ServiceRecv.
 From PS Require Import Model.StackTypes Model.Stack Model.StackIO.
-From PS Require Import Spec.TraceSpec Spec.StoreSpec.
+From PS Require Import Spec.TraceSpec Spec.StoreSpec Spec.AnnSpec.
 From PS Require Import Spec.C19Spec Spec.C07Spec Spec.C16Spec Spec.C01Spec Spec.C02Spec.
 
 Definition bad : sexp := L [A 255; A 255; A 255].
@@ -101,6 +101,13 @@ Definition dispatch_check (op : N) (arg : sexp) : option sexp :=
   | 3005 => check_op check_C05 arg
   | 3006 => check_op check_C06 arg
   | 3009 => check_op check_C09 arg
+  | 3008 => check_op check_C08 arg
+  | 3010 => check_op check_C10 arg
+  | 3011 => check_op check_C11 arg
+  | 3012 => check_op check_C12 arg
+  | 3013 => check_op check_C13 arg
+  | 3014 => check_op check_C14 arg
+  | 3015 => check_op check_C15 arg
   | _ => None
   end.
 
